@@ -211,7 +211,7 @@ Trace(g, m) == RSum(LAMBDA P : g[P][P], 1..m)
 (*   p0     probability of field 0 at the last site update                 *)
 (***************************************************************************)
 HSC(I, x) == IF x = 0 THEN <<I.hs[1], I.hs[2]>> ELSE <<I.hs[2], I.hs[1]>>
-Clamp(r)  == IF RPos(r) THEN r ELSE ZERO
+Clamp(r)  == IF IsNaR(r) THEN NaR ELSE IF RPos(r) THEN r ELSE ZERO     \* max(0, r); overflow stays overflow
 
 Start(I) ==
   LET o == Ov(I, I.wu, I.wd)
@@ -244,6 +244,7 @@ SiteStep(I, s, k, x) ==
       c    == HSC(I, x)
       rx   == rc[x + 1]
       w2   == ApplyB(I, s.wu, s.wd, k, I.n + k, RSub(c[1], ONE), RSub(c[2], ONE))
+      nar  == IsNaR(r[1]) \/ IsNaR(r[2])   \* overflow: the successor carries NaR (wt, ov, p0) and ends the path
       ok   == RPos(rx)                    \* field x has non-zero probability
   IN  [wu |-> w2[1], wd |-> w2[2],
        wt |-> RMul(s.wt, RDiv(tot, RI(2))),
@@ -251,11 +252,11 @@ SiteStep(I, s, k, x) ==
        gr |-> IF ok THEN GreenUpdate(s.gr, rx, k, I.n + k, RSub(c[1], ONE), RSub(c[2], ONE), M2(I)) ELSE <<>>,
        free |-> s.free /\ RPos(r[1]) /\ RPos(r[2]),
        amb |-> s.amb \/ Tiny(r[1]) \/ Tiny(r[2]),
-       alive |-> s.alive /\ ok,
-       p0 |-> IF RPos(tot) THEN RDiv(rc[1], tot) ELSE ZERO]
+       alive |-> s.alive /\ (ok \/ nar),
+       p0 |-> IF nar THEN NaR ELSE IF RPos(tot) THEN RDiv(rc[1], tot) ELSE ZERO]
 \* both fields rejected at site k: the code's norm is 0 (weight 0, probabilities 0/0)
 BothRejected(I, s, k) ==
-  LET r == SiteRatios(I, s.gr, k) IN ~RPos(r[1]) /\ ~RPos(r[2])
+  LET r == SiteRatios(I, s.gr, k) IN ~IsNaR(r[1]) /\ ~IsNaR(r[2]) /\ ~RPos(r[1]) /\ ~RPos(r[2])
 
 \* energy-shift factor e^{dt E_shift} (the harness sets E_shift = 0: factor 1), cap at 100
 Final(I, s) ==
@@ -310,18 +311,24 @@ Rhs(I) ==
   IN  VScaleR(RDiv(I.w0, s.ov), MHat(I, DHat(I, MHat(I, SDVecR(I, I.wu, I.wd)))))
 
 \* left-hand side: sum over all field paths of  P(path) * weight * |W_leaf> / overlap_leaf,
-\* computed exactly as the algorithm produces each factor (nothing is telescoped by hand)
+\* computed exactly as the algorithm produces each factor (nothing is telescoped by hand).  ps is the
+\* sequence of the probabilities of the branches taken so far; P(path) = product of ps.  The product is
+\* multiplied into weight/overlap one factor at a time (the bare product of four probabilities alone
+\* would overflow 32 bits at n = 4 although P * weight / overlap is a small rational).
+RECURSIVE TimesAll(_, _, _)
+TimesAll(acc, ps, k) == IF k = 0 THEN acc ELSE TimesAll(RMul(acc, ps[k]), ps, k - 1)
 RECURSIVE LeafSum(_, _, _, _)
-LeafSum(I, s, k, pr) ==
-  IF k > I.n
+LeafSum(I, s, k, ps) ==
+  IF StateHasNaR(s) THEN [t \in DOMAIN CfgSeq(I) |-> NaR]
+  ELSE IF k > I.n
   THEN LET t == Final(I, HalfStep(I, s))
        IN  IF RIsZero(t.ov) \/ RIsZero(t.wt) THEN VZero(I)
-           ELSE VScaleR(RDiv(RMul(pr, t.wt), t.ov), SDVecR(I, t.wu, t.wd))
+           ELSE VScaleR(TimesAll(RDiv(t.wt, t.ov), ps, Len(ps)), SDVecR(I, t.wu, t.wd))
   ELSE IF BothRejected(I, s, k) THEN VZero(I)
   ELSE LET t0 == SiteStep(I, s, k, 0)
            t1 == SiteStep(I, s, k, 1)
-           v0 == IF t0.alive THEN LeafSum(I, t0, k + 1, RMul(pr, t0.p0)) ELSE VZero(I)
-           v1 == IF t1.alive THEN LeafSum(I, t1, k + 1, RMul(pr, RSub(ONE, t1.p0))) ELSE VZero(I)
+           v0 == IF t0.alive THEN LeafSum(I, t0, k + 1, Append(ps, t0.p0)) ELSE VZero(I)
+           v1 == IF t1.alive THEN LeafSum(I, t1, k + 1, Append(ps, RSub(ONE, t1.p0))) ELSE VZero(I)
        IN  VAddR(v0, v1)
 \* no constraint active anywhere in the tree of field paths (and nothing ambiguous / overflowed)
 RECURSIVE AllFree(_, _, _)
@@ -493,7 +500,7 @@ VecSeq(I, v) == LET cs == CfgSeq(I) IN [t \in DOMAIN cs |-> [a |-> cs[t][1], b |
 SumResult(I, s) ==
   LET h   == HalfStep(I, s)
       ok  == h.alive /\ ~StateHasNaR(h)
-      lhs == IF ok THEN LeafSum(I, h, 1, ONE) ELSE VZero(I)
+      lhs == IF ok THEN LeafSum(I, h, 1, <<>>) ELSE VZero(I)
       rhs == Rhs(I)
   IN  [allfree |-> ok /\ AllFree(I, h, 1), lhs |-> lhs, rhs |-> rhs,
        ovf |-> VHasNaR(lhs) \/ VHasNaR(rhs),
